@@ -55,6 +55,9 @@ def run(tier: str) -> int:
         if name == "transport":
             import trcommon as tc
             tc.report(out, v, b, only={"vocabulary"})
+        elif name in ("idstar", "idcstar"):
+            import cfcommon as cf
+            cf.report(out, v, b, only={"vocabulary"})
         else:
             ic.report(out, v, b, idx, only_clauses={"vocabulary"})
     total = sum(len(p[1]) for p in parts)
@@ -67,7 +70,9 @@ def run(tier: str) -> int:
         "distinct_nontrivial": sum(per.values()),
         "rule": "one record = one returned estimand; TLC evaluates the vocabulary predicate of the spec on the serialised "
                 "term (ID/IDC: only unmarked, subscript-free, population-free probabilities over V(G)); non-trivial = record "
-                "with an estimand; queries: all of 3-node ADMGs, seeded 4-node sample",
+                "with an estimand; queries: all of 3-node ADMGs, seeded 4-node sample; ID* / IDC*: single-world terms only (SingleWorldOnly in "
+                "CF.tla) on every single atom and slices of the pairs / three-world triples over the 3-node ADMGs and on two-atom events over "
+                "seeded 4-node ADMGs",
         "samples": [{"id": i, "estimand": by_id[i][1]["out"].get("str")} for i in ok_ids[:: max(1, len(ok_ids) // 3)][:3]],
         "exhaustive": False,
         "design_mc": mcs,
